@@ -30,7 +30,7 @@ RULE = (
 )
 ASSUMPTIONS = ["no hash collisions among the generated inputs", "digest texts are sorted as text (the order the definition's 'sorted' refers to)"]
 BUDGET = {"quick": (300, 4), "thorough": (15000, 16)}
-REQUIRED = ["rename_file", "rename_dir", "edit", "c4", "multi_format", "empty_dir", "ignored_entry", "permuted"]
+REQUIRED = ["rename_file", "rename_dir", "edit", "c4", "multi_format", "empty_dir", "ignored_entry", "permuted", "nested_history"]
 
 
 @st.composite
@@ -44,7 +44,7 @@ def _scn(draw):
     if files:
         kinds += ["rename_file", "edit"]
     if dirs:
-        kinds += ["rename_dir"]
+        kinds += ["rename_dir", "rename_dir"]
     if kinds:
         k = draw(st.sampled_from(kinds))
         if k == "edit":
@@ -58,6 +58,7 @@ def _scn(draw):
         "change": change,
         "perm": draw(st.integers(0, 2**32)),
         "dsstore": draw(st.sampled_from([None, None, "", "sub"])),
+        "nest": draw(st.one_of(st.none(), st.sampled_from(dirs))) if dirs else None,
     }
 
 
@@ -182,6 +183,28 @@ def run_case(scn, ctx):
         # second generation (ascmhl folder now present and ignored): same hashes
         tab2 = seal_and_read(w, "R", fmts, holder)
         compare(tab2, ref, fmts, "manifest-gen2", holder[-1], "second create")
+
+        # a nested history inside the tree: the child's manifest and the parent's entry for the nested root must
+        # both carry the definition's hashes of that sub-tree, in every format
+        if scn.get("nest"):
+            w.build("N", scn["tree"])
+            child = "N/" + scn["nest"]
+            res = w.create(child, fmts[:1])
+            holder.append(res)
+            require(res.exc is None and res.exit_code == 0, "create", "nested create failed: " + res.brief(), res)
+            tabn = seal_and_read(w, "N", fmts, holder)
+            cdoc = w.read_history(child)[-1][2]
+            ctab = manifest_table(cdoc)
+            # merge the child's records (relative to the child) into the parent's table
+            for f in fmts:
+                require(f in ctab, "nested-child", "child manifest has no directory hashes in %s" % f, holder[-1])
+                for d, v in ctab[f].items():
+                    full = scn["nest"] + ("/" + d if d else "")
+                    if d == "":
+                        require(tabn[f].get(full) == v, "nested-root-entry", "%s: parent records %r for nested root %r, child's root hash is %r" % (f, tabn[f].get(full), full, v), holder[-1])
+                    tabn[f][full] = v
+            compare(tabn, ref, fmts, "nested", holder[-1], "create over a nested history")
+            ctx.event("nested_history")
 
         # permuted enumeration order on a fresh copy
         w.build("P", scn["tree"])
